@@ -53,7 +53,9 @@ def run_bin(name, scratch, args=(), stdin=None, timeout=120, env=None):
 
 
 def run_witness(kf, scratch, root):
-    return run_bin(kf['witness'], scratch)
+    r = run_bin(kf['witness'], scratch, kf.get('witness_args', []))
+    r.pop('full_output', None)
+    return r
 
 
 def replay_file(path):
